@@ -9,8 +9,12 @@ numerical and is not decided.
 
 from __future__ import annotations
 
+import ast
+from typing import List, Tuple
+
 from .. import cxx
-from ..report import Context
+from ..index import get_index, norm
+from ..report import Context, AnalysisError
 
 LEVEL = "other"
 TOTAL = 40  # "all multiplicity vectors with total up to about 40" (property quantifier)
@@ -26,5 +30,73 @@ def run(ctx: Context) -> None:
     )
     ctx.rule("C04b", "integer carriers of binomial weights in the permanent kernels have at least the bits the stated multiplicity range needs")
     cxx.check_widths(ctx, "C04b", TOTAL)
+    ctx.rule("C04c", "a helper that rescales its matrix argument in place and returns (matrix, factor) returns, on every path, the factor it applied on that path (1 when it applied none)")
+    clause_c(ctx)
     ctx.assume("LP64 data model (int 32 bits, long/int64_t 64 bits)")
     ctx.assume("the product of per-mode central binomial coefficients is bounded by the central coefficient of the total")
+
+
+def _paths(stmts: List[ast.stmt]) -> List[List[ast.stmt]]:
+    """Syntactic paths through a block up to a return (if statements fork, other statements are executed once)."""
+    out: List[List[ast.stmt]] = []
+
+    def go(rest: List[ast.stmt], seen: List[ast.stmt]) -> None:
+        for i, s in enumerate(rest):
+            if isinstance(s, ast.Return):
+                out.append(seen + [s])
+                return
+            if isinstance(s, ast.If):
+                go(list(s.body) + rest[i + 1:], seen)
+                go(list(s.orelse) + rest[i + 1:], seen)
+                return
+            seen = seen + [s]
+
+    go(list(stmts), [])
+    return out
+
+
+def clause_c(ctx: Context) -> None:
+    idx = get_index(ctx.repo)
+    n = 0
+    for fn in idx.all_functions():
+        if not fn.module.name.startswith("piquasso._math"):
+            continue
+        params = fn.all_params()
+        rets = [r for r in ast.walk(fn.node) if isinstance(r, ast.Return) and isinstance(r.value, ast.Tuple) and len(r.value.elts) == 2
+                and isinstance(r.value.elts[0], ast.Name) and r.value.elts[0].id in params]
+        scaled = [a for a in ast.walk(fn.node) if isinstance(a, ast.AugAssign) and isinstance(a.op, (ast.Mult, ast.Div))
+                  and isinstance(a.target, ast.Name) and a.target.id in params]
+        if not rets or not scaled:
+            continue
+        n += 1
+        for path in _paths(fn.node.body):
+            ret = path[-1]
+            if not (isinstance(ret.value, ast.Tuple) and len(ret.value.elts) == 2 and isinstance(ret.value.elts[0], ast.Name)):
+                continue
+            mat, fac = ret.value.elts[0].id, ret.value.elts[1]
+            applied = [(i, s) for i, s in enumerate(path) if isinstance(s, ast.AugAssign) and isinstance(s.target, ast.Name) and s.target.id == mat]
+            key = f"{fn.qualname}|returned-factor|line-{'unit' if isinstance(fac, ast.Constant) else norm(fac)}|{len(applied)}-scalings"
+            ok = True
+            why = ""
+            if isinstance(fac, ast.Constant):
+                if fac.value not in (1, 1.0):
+                    ok, why = False, f"returns the constant factor {fac.value!r}"
+                elif applied:
+                    ok, why = False, f"scales `{mat}` by `{norm(applied[0][1].value)}` but reports the factor 1"
+            elif isinstance(fac, ast.Name):
+                if len(applied) != 1 or not isinstance(applied[0][1].op, ast.Mult) or norm(applied[0][1].value) != fac.id:
+                    ok, why = False, (f"reports the factor `{fac.id}` but " + ("leaves the matrix unscaled" if not applied else
+                                      f"scales `{mat}` by `{norm(applied[0][1].value)}`") + " on this path")
+                else:
+                    i0 = applied[0][0]
+                    if any(isinstance(s, (ast.Assign, ast.AugAssign)) and any(isinstance(t, ast.Name) and t.id == fac.id for t in
+                           (s.targets if isinstance(s, ast.Assign) else [s.target])) for s in path[i0 + 1:]):
+                        ok, why = False, f"rebinds `{fac.id}` after applying it"
+            else:
+                raise AnalysisError(f"C04c: the factor returned by {fn.qualname} is neither a name nor a constant (undecided)")
+            ctx.obligation("C04c", key, ok, f"{ctx.relpath(fn.file)}:{ret.lineno}")
+            if not ok:
+                ctx.violation("C04c", key, fn.file, ret.lineno,
+                              f"{fn.name} {why}: callers undo the scaling with the returned factor (power traces are divided by it), so the "
+                              f"hafnian is off by a power of the factor for the inputs that take this path", norm(ret)[:80])
+    ctx.require_floor("in-place rescaling helpers returning (matrix, factor)", n, 1)
